@@ -158,7 +158,10 @@ namespace occa {
             // - Pass the variable as a reference
             arg.add(0, constant_q);
             arg -= const_;
-            arg.vartype.setReferenceToken(arg.source);
+            // Unnamed arguments have no source token
+            arg.vartype.setReferenceToken(arg.source
+                                          ? (token_t*) arg.source
+                                          : (token_t*) function.source);
           }
           arg.vartype.customSuffix = "[[buffer(";
           arg.vartype.customSuffix += occa::toString(i);
